@@ -84,7 +84,7 @@ def expressible_10(node):
             return all(c[0] in 'eht' and M.occ(c) in ((0, 1), (1, 1)) for c in n[1])
         if M.is_group(n):
             return all(ok(c, False) for c in n[1])
-        if n[0] == 'w' and n[1] in M.NOT_ATTR:
+        if n[0] == 'w' and (M.con_base(n[1]) in M.NOT_ATTR or '~' in n[1]):
             return False     # notNamespace is XSD 1.1
         return True
     return ok(node, True)
@@ -168,6 +168,7 @@ def shrink(node, cfg, word, failing_word, max_steps=600):
             continue
         seen = set()
         for v in variants(node):
+            v = M.resync_siblings(v) if M.is_group(v) else v   # ##definedSibling names follow the model
             if v in seen or not M.is_group(v):
                 continue
             seen.add(v)
